@@ -107,7 +107,7 @@ func stubSpawn(fr *Frame, in ssa.Instruction, f *ssa.Function, cc *ssa.CallCommo
 func stubSort(fr *Frame, in ssa.Instruction, f *ssa.Function, cc *ssa.CallCommon, args []Term) []Term {
 	used(fr, f, "permutes the elements of its argument (contents havocked)")
 	c := fr.c()
-	for _, comp := range []string{"M", "MS"} {
+	for _, comp := range memAll {
 		fr.cur.set(comp, c.fresh("hv."+comp, compSorts[comp]))
 	}
 	return nil
